@@ -5,6 +5,8 @@ Import ListNotations.
 Require Import Pyrefact.Ops PyrefactGen.Tables Pyrefact.BoundModel Pyrefact.BoolRwModel Pyrefact.BoundProofs.
 Require Import Pyrefact.RangeModel Pyrefact.RangeProofs.
 Require Import Pyrefact.BoundValueProofs Pyrefact.BoolEquivModel Pyrefact.BoolEquivProofs.
+Require Import Pyrefact.SumPolyModel Pyrefact.SumPolyProofs.
+From Coq Require Import QArith.
 Open Scope Z_scope.
 
 (* T17.1 the regenerated REVERSE_OPERATOR_MAPPING is total and maps every operator to its negation
@@ -237,3 +239,34 @@ Theorem R17_12_truth_not_value :
   (exists rho sigma, veval rho sigma r1712_in <> veval rho sigma r1712_out).
 Proof. exact truth_not_value. Qed.
 Print Assumptions R17_12_truth_not_value.
+
+(* T17.9b sum(range(a, b)) after the repair of literal empty ranges (a46a07b): the emitted value is
+   right whenever a <= b or both bounds are literals; R17.10b: still refuted for symbolic bounds. *)
+Theorem T17_9b_sum_range_out_sound :
+  forall literal a b, (a <= b \/ literal = true)%Z -> (2 * sum_range a b = sum_range_out2 literal a b)%Z.
+Proof. exact sum_range_out_sound. Qed.
+Print Assumptions T17_9b_sum_range_out_sound.
+
+Theorem R17_10b_sum_range_symbolic_refuted :
+  exists a b, (b < a)%Z /\ (2 * sum_range a b <> sum_range_out2 false a b)%Z.
+Proof. exact sum_range_out_symbolic_refuted. Qed.
+Print Assumptions R17_10b_sum_range_symbolic_refuted.
+
+(* T17.13 the discrete fundamental theorem used to validate the closed forms sympy computes: F with
+   F (k + 1) = F k + f k sums f over range(a, b) to F b - F a for every a <= b; and its use: an emitted
+   closed form `out` for sum(elt for x in range(lo, hi)) is right at a valuation as soon as such an F
+   with F lo = 0 and F hi = out exists (the generated instance files prove the premises with `field`). *)
+Theorem T17_13_telescope :
+  forall (F f : Z -> Q), (forall k : Z, (F (k + 1)%Z == F k + f k)%Q) ->
+  forall a b, (a <= b)%Z -> (qsumf f (zrange a b 1) == F b - F a)%Q.
+Proof. exact telescope. Qed.
+Print Assumptions T17_13_telescope.
+
+Theorem T17_13_closed_form_valid :
+  forall x lo hi elt out rho a b (F : Z -> Q),
+    zeval rho lo = Some a -> zeval rho hi = Some b -> (a <= b)%Z ->
+    (forall k : Z, (F (k + 1)%Z == F k + aeval (upd rho x k) elt)%Q) ->
+    (F a == 0)%Q -> (F b == aeval rho out)%Q ->
+    exists v, comp_sum [GRange x lo hi (ANum 1)] rho elt = Some v /\ (v == aeval rho out)%Q.
+Proof. exact closed_form_valid. Qed.
+Print Assumptions T17_13_closed_form_valid.
